@@ -58,6 +58,10 @@ def generate(ck):
         m = int(rng.choice([2, 3, 10, 50, 400]))
         if i % 2:
             p = np.cumsum(10.0 ** rng.uniform(-1, 2.7, m))
+        elif i % 6 == 0:
+            # a grid whose steps are BIT-equal (500, 1000, 1500, ...; also as integers below), under rough
+            # positive viscosity / Z columns: a whole-array property of the pressures, not of any element
+            p = float(rng.choice([10.0, 250.0, 500.0])) * np.arange(1, m + 1)
         else:
             p = np.linspace(wl.f(rng.uniform(1, 100)), wl.f(rng.uniform(500, 14000)), m)
         order = ["ascending", "ascending", "descending"][i % 3]
@@ -69,7 +73,7 @@ def generate(ck):
                 "order": order,
                 "p": [wl.f(v) for v in p],
                 "mu": [wl.f(v) for v in rng.uniform(0.005, 0.1, m)],
-                "z": [wl.f(v) for v in rng.uniform(0.3, 2.0, m)],
+                "z": [wl.f(v) for v in (rng.uniform(0.3, 2.0, m) if i % 4 else 10.0 ** rng.uniform(-1.5, 0.3, m))],
             }
         )
     return descs
